@@ -121,6 +121,29 @@ def check_invariants(inp):
           if not (leaves_equal(before.cluster_params[k], st.cluster_params[k]) and
                   leaves_equal(before.opt_states[k], st.opt_states[k])):
             return f'hyp: cluster {k} has no client in round {r + 1} but its params / optimizer state changed'
+  elif which == 'hyp_eval':
+    # the packaged evaluator: on EVERY call each client is evaluated with the cluster of minimal average train loss under the
+    # cluster params OF THAT CALL (one evaluator object reused across calls, as an experiment loop does)
+    from fedjax.core import metrics as M
+    emodel = models.Model(init=None, apply_for_train=lambda p_, b_, k_: b_['x'] @ p_['w'] + p_['b'], train_loss=lambda b_, o: (o - b_['y']) ** 2,
+                          apply_for_eval=lambda p_, b_: jnp.stack([b_['x'] @ p_['w'] + p_['b'], jnp.zeros(len(b_['y']))], axis=-1),
+                          eval_metrics={'acc': M.Accuracy()})
+    ev = hyp_cluster.HypClusterEvaluator(emodel)
+    cl = clients_for(0, [4, 3, 5], shift=1.0)
+    test = [(cid, cds.ClientDataset({'x': np.asarray(d.raw_examples['x']), 'y': (np.asarray(d.raw_examples['y']) > 0).astype(np.int32)}))
+            for cid, d, _ in cl]
+    for params_list in ([p0(0.0), p0(3.0)], [p0(3.0), p0(0.0)], [p0(-5.0), p0(0.2)]):
+      got = dict(ev.evaluate_clients(params_list, cl, test, php))
+      for (cid, d, _), (_, td) in zip(cl, test):
+        losses = [float(jnp.mean(pel(pp, d.all_examples(), None))) for pp in params_list]
+        k_ = int(np.argmin(losses))
+        if abs(losses[0] - losses[1]) < 1e-3:
+          continue
+        want = float(models.evaluate_model(emodel, params_list[k_], td.padded_batch(php))['acc'])
+        other = float(models.evaluate_model(emodel, params_list[1 - k_], td.padded_batch(php))['acc'])
+        if abs(float(got[cid]['acc']) - want) > 1e-6 and abs(want - other) > 1e-6:
+          return (f'HypClusterEvaluator (reused across calls): client {cid} is evaluated with accuracy {float(got[cid]["acc"])}; its '
+                  f'cluster of minimal train loss under the params of THIS call ({k_}, losses {losses}) gives {want}')
   elif which == 'hyp_pmap':
     # the same rounds with the algorithm built under the pmap backend (it returns clients in another order: by decreasing
     # batch count): every delta still goes to ITS client's cluster with ITS client's weight - same states as under jit
@@ -234,6 +257,7 @@ def sweep_invariants(tier, seed):
   yield dict(which='apfl', rounds=R, coef=0.5, eval=True)
   yield dict(which='hyp', rounds=[[4, 3, 5], [3, 0, 4], [0, 0], [5], [2, 2]])
   yield dict(which='hyp_pmap', rounds=[[2, 6, 4], [4, 2, 8, 6]])
+  yield dict(which='hyp_eval', rounds=[])
   yield dict(which='mimelite', rounds=R)
   yield dict(which='mimelite', rounds=R, clip=0.0)
   yield dict(which='mimelite', rounds=R, clip=0.5)
